@@ -3,6 +3,7 @@ mod c03;
 mod c04;
 mod c05;
 mod c09;
+mod c10;
 mod c12;
 mod c13;
 mod c16;
@@ -26,6 +27,7 @@ fn main() {
             "c04" => c04::run(&a[2..]),
             "c05" => c05::run(&a[2..]),
             "c09" => c09::run(&a[2..]),
+            "c10" => c10::run(&a[2..]),
             "c12" => c12::run(&a[2..]),
             "c13" => c13::run(&a[2..]),
             "c16" => c16::run(&a[2..]),
